@@ -251,6 +251,10 @@ type didWorld struct {
 	ts    func() uint64
 }
 
+// ethPrefix is the CAIP-10 prefix used by the eip155 probes of one run: the usual chain reference 1, or (for half
+// of the seeds) this chain's own id as the reference, which makes "eip155:<chain id>:0x.." look local to careless checks.
+var ethPrefix = "eip155:1:"
+
 func ethProof(secret string, did string, ts uint64, message string, corrupt bool) (*didtypes.BindingProof, string) {
 	key, err := ethcrypto.ToECDSA(ethcrypto.Keccak256([]byte("eth/" + secret)))
 	if err != nil {
@@ -266,7 +270,7 @@ func ethProof(secret string, did string, ts uint64, message string, corrupt bool
 	if corrupt {
 		sig[10] ^= 0x55
 	}
-	accId := "eip155:1:" + addr
+	accId := ethPrefix + addr
 	return &didtypes.BindingProof{Version: 1, Message: message, Signature: "0x" + hex.EncodeToString(sig), Account: accId, Did: did, Timestamp: ts}, accId
 }
 
@@ -283,6 +287,10 @@ func scnDidReg(ctx *check.JobCtx) {
 		return
 	}
 	r := w.Rng
+	ethPrefix = "eip155:1:"
+	if ctx.Job.Seed%2 == 0 {
+		ethPrefix = "eip155:" + chain.ChainID + ":"
+	}
 	now := func() uint64 { return uint64(chain.BlockTime(w.H()).Unix()) }
 	var sids []*actors.SidDid
 	accDidSeq := 0
@@ -394,11 +402,11 @@ func scnDidReg(ctx *check.JobCtx) {
 			// the same Ethereum account written with other letter case is still the same account
 			variant := r.Intn(3)
 			if variant == 1 {
-				accId = "eip155:1:0x" + strings.ToUpper(accId[len("eip155:1:0x"):])
+				accId = ethPrefix + "0x" + strings.ToUpper(accId[len(ethPrefix+"0x"):])
 				cs += "/uppercase"
 			} else if variant == 2 {
-				h := accId[len("eip155:1:0x"):]
-				accId = "eip155:1:0x" + strings.ToUpper(h[:20]) + h[20:]
+				h := accId[len(ethPrefix+"0x"):]
+				accId = ethPrefix + "0x" + strings.ToUpper(h[:20]) + h[20:]
 				cs += "/mixedcase"
 			}
 			p.Account = accId
@@ -410,7 +418,7 @@ func scnDidReg(ctx *check.JobCtx) {
 					if st.DidOf[f.AccountID()] == sidY.DID() {
 						p2, acc2 := ethProof(fmt.Sprintf("k%d", r.Intn(4)), sidY.DID(), ts, actors.BindingMessage(sidY.DID(), ts), false)
 						if variant == 1 {
-							acc2 = "eip155:1:0x" + strings.ToUpper(acc2[len("eip155:1:0x"):])
+							acc2 = ethPrefix + "0x" + strings.ToUpper(acc2[len(ethPrefix+"0x"):])
 						}
 						p2.Account = acc2
 						bind("add/eip155"+cs[len("create/eip155"):], f, f, sidY, p2, acc2, true, sidY.Versions[0].Keys)
@@ -432,7 +440,7 @@ func scnDidReg(ctx *check.JobCtx) {
 			case 2:
 				p.Signature = ""
 			case 3:
-				accId = "eip155:1:0x"
+				accId = ethPrefix + "0x"
 				p.Signature = "0x"
 			case 4:
 				accId = "cosmos:" + chain.ChainID + ":" + other.Addr.String() // proof by acct, account id of other
@@ -445,8 +453,29 @@ func scnDidReg(ctx *check.JobCtx) {
 			st := snapshotDid(w.C)
 			if r.Intn(2) == 0 && len(sids) > 0 {
 				sid := sids[r.Intn(len(sids))]
-				m := &didtypes.MsgUpdatePaymentAddress{Creator: acct.Addr.String(), AccountId: other.AccountID(), Did: sid.DID()}
-				cs := fmt.Sprintf("sid/creator-bound=%v/target-bound=%v", st.DidOf[acct.AccountID()] == sid.DID(), st.DidOf[other.AccountID()] == sid.DID())
+				target := other.AccountID()
+				kind := "cosmos"
+				if r.Intn(3) == 0 {
+					// an eip155 account bound to this sid, named as payment account by a creator bound to it
+					var eths []string
+					for aid, d := range st.DidOf {
+						if d == sid.DID() && strings.HasPrefix(aid, "eip155:") {
+							eths = append(eths, aid)
+						}
+					}
+					sort.Strings(eths)
+					if len(eths) > 0 {
+						target, kind = eths[r.Intn(len(eths))], "eip155"
+						for _, f := range funded {
+							if st.DidOf[f.AccountID()] == sid.DID() {
+								acct = f
+								break
+							}
+						}
+					}
+				}
+				m := &didtypes.MsgUpdatePaymentAddress{Creator: acct.Addr.String(), AccountId: target, Did: sid.DID()}
+				cs := fmt.Sprintf("sid/creator-bound=%v/target-bound=%v/%s", st.DidOf[acct.AccountID()] == sid.DID(), st.DidOf[target] == sid.DID(), kind)
 				w.Deliver("did-payaddr", acct, map[string]interface{}{"c17.case": cs}, m)
 			} else {
 				kd := actors.NewKeyDid(fmt.Sprintf("k%d", r.Intn(5)))
